@@ -63,31 +63,36 @@ Definition first_write (ops : list op) : option str :=
 
 Inductive case :=
 | Case (h0 : hdr) (accept ae : list str) (ops : list op)
+       (abort : bool)                    (* the inner handler ends with panic(http.ErrAbortHandler) after [ops] *)
        (ctm_tbl : list (str * bool))     (* contentTypes.MatchString on every content type of the case *)
-       (sniff_tbl : list (str * str))    (* http.DetectContentType(first chunk written) *)
-       (i_panic : bool) (i_code : N) (i_hdr : hdr)
+       (sniff_tbl : list (str * str))    (* http.DetectContentType on the first chunk written and on the whole body *)
+       (i_panic : bool)                  (* a panic that is not the inner handler's own *)
+       (i_propagated : bool)             (* the inner handler's panic came out of ServeHTTP *)
+       (i_code : N) (i_hdr : hdr)        (* final status and headers, after the underlying writer's (net/http's) sniffing *)
        (i_info : list (N * hdr))         (* informational responses the underlying writer received *)
-       (i_body : str)                    (* the recorder's body *)
+       (i_body : str)                    (* the body the underlying writer received *)
        (i_gunzip : option str).          (* compress/gzip's reader on that body, None = not a gzip stream *)
 
 Definition check_case (c : case) : N :=
   match c with
-  | Case h0 accept ae ops ctm_tbl sniff_tbl i_panic i_code i_hdr i_info i_body i_gunzip =>
+  | Case h0 accept ae ops abort ctm_tbl sniff_tbl i_panic i_propagated i_code i_hdr i_info i_body i_gunzip =>
       let sniffT := fun b => match lookup sniff_tbl b with Some t => t | None => [0] end in
       let ctmT := fun t => match lookup ctm_tbl t with Some r => r | None => false end in
-      let m := handler sniffT ctmT h0 accept ae ops in
+      let sv := serve sniffT ctmT h0 accept ae ops abort in
+      let m := s_res sv in
       let up := bare sniffT h0 ops in
-      (* the tables answer every question the model and the spec ask *)
+      let in_tbl := fun b => match lookup sniff_tbl b with Some _ => true | None => false end in
+      (* the tables answer every question the model and the spec ask; the codes are in the modelled domain *)
       let covered :=
-        match lookup ctm_tbl (hget (o_hdr m) H_CT), lookup ctm_tbl (hget i_hdr H_CT) with
-        | Some _, Some _ => true | _, _ => false end
-        && match first_write ops with
-           | Some b => match lookup sniff_tbl b with Some _ => true | None => false end
-           | None => true
-           end in
+        valid_codes ops
+        && match lookup ctm_tbl (hget (o_hdr m) H_CT), lookup ctm_tbl (hget i_hdr H_CT) with
+           | Some _, Some _ => true | _, _ => false end
+        && match first_write ops with Some b => in_tbl b | None => true end
+        && (beq (written ops) [] || in_tbl (written ops)) in
       let same :=
         covered
         && Bool.eqb i_panic (o_panic m)
+        && Bool.eqb i_propagated (s_propagated sv)
         && (i_code =? o_code m)
         && hdr_eqb i_hdr (o_hdr m)
         && info_eqb i_info (o_info m)
@@ -95,28 +100,47 @@ Definition check_case (c : case) : N :=
            | Some f => beq (o_plain m) [] && opt_eqb beq i_gunzip (Some f)
            | None => beq i_body (o_plain m)
            end in
-      (* ---- the property on the implementation's own observables, against the bare run ---- *)
-      let ct_ok :=
-        opt_eqb vals_eqb (hvals i_hdr H_CT) (hvals (o_hdr up) H_CT)
-        || match hvals (o_hdr up) H_CT, first_write ops with
-           | None, Some b => opt_eqb vals_eqb (hvals i_hdr H_CT) (Some [sniffT b])
-           | _, _ => false
-           end in
+      (* ---- the property on the implementation's own observables, against the bare run ----
+         [up] = the same calls on the underlying writer alone: what net/http delivers for the upstream *)
+      let ct_up := hvals (o_hdr up) H_CT in
+      let ct_impl := hvals i_hdr H_CT in
+      (* identity: every header is the upstream's, Vary apart (one Accept-Encoding more) *)
       let identity :=
         beq i_body (written ops)
-        && hdr_eqb_except [H_VARY; H_CT] i_hdr (o_hdr up)
-        && vary_ok i_hdr (o_hdr up) && ct_ok in
+        && hdr_eqb_except [H_VARY] i_hdr (o_hdr up)
+        && vary_ok i_hdr (o_hdr up) in
+      (* compressed: Content-Type is the upstream's; or, where the upstream set none (so that [up] has none
+         or the server's own sniffed one), the handler's sniffed one or none *)
+      let up_ct_unset :=
+        match ct_up with
+        | None => true
+        | Some vs => negb (beq (written ops) []) && vals_eqb vs [sniffT (written ops)]
+        end in
+      let ct_ok_gz :=
+        opt_eqb vals_eqb ct_impl ct_up
+        || (up_ct_unset
+            && match ct_impl, first_write ops with
+               | None, _ => true
+               | Some vs, Some b => vals_eqb vs [sniffT b]
+               | _, _ => false
+               end) in
       let compressed :=
         rfc_accepts_gzip ae
         && ctmT (hget i_hdr H_CT)
-        && beq (hget (o_hdr up) H_CE) []
+        && not_encoded (o_hdr up)
         && opt_eqb vals_eqb (hvals i_hdr H_CE) (Some [GZIP])
         && opt_eqb vals_eqb (hvals i_hdr H_CL) None
         && opt_eqb beq i_gunzip (Some (written ops))
         && hdr_eqb_except [H_VARY; H_CT; H_CE; H_CL] i_hdr (o_hdr up)
-        && vary_ok i_hdr (o_hdr up) && ct_ok in
-      let spec := negb i_panic && (i_code =? o_code up) && info_ok i_info (o_info up) && (identity || compressed) in
-      let region : option N := None in   (* no known-finding region is left (F-C17-1 fixed by 7cff601 + bfb8a14) *)
+        && vary_ok i_hdr (o_hdr up) && ct_ok_gz in
+      let spec := negb i_panic && Bool.eqb i_propagated abort && (i_code =? o_code up)
+                  && info_ok i_info (o_info up) && (identity || compressed) in
+      (* known-finding regions: predicates on the input (Model/Gzip.v) *)
+      let region : option N :=
+        if q0_ext_region ae && negb (rfc_accepts_gzip ae) then Some 1
+        else if accepts_gzip accept ae && ce_hidden (ce_values (o_hdr up)) then Some 3
+        else if sniff_region h0 accept ae ops then Some 2
+        else None in
       let nontrivial := match o_fed m with Some _ => true | None => negb (beq (o_plain m) []) end in
       verdict same spec region nontrivial
   end.
